@@ -201,7 +201,7 @@ def rule_side_channel(ctx):
             ok = not nested
             ctx.ob("C10.b", f"key `{k}` written by {name} on {sorted(classes)}: holder is always the statement root", ok, m.loc(site))
             if not ok:
-                ctx.violation("C10.b", "transforms", name, site, m.loc(site),
+                ctx.violation("C10.b", "transforms", name, f"side-channel key `{k}` on nested-capable {'/'.join(sorted(nested))}", m.loc(site),
                               f"`{k}` is attached to a {'/'.join(sorted(nested))} node, which can occur below the statement root "
                               f"(subquery, INSERT ... SELECT, CTE), but _execute reads it from the root's args only: "
                               f"`insert into r select random(42)` twice gives two different values (the seed is ignored)")
